@@ -57,22 +57,44 @@ def local_cfgs(srcs=SRCS[:2]):
             for mode in ("replicate", "syncfn") for src in srcs for incr in (False, True)]
 
 
-def random_histories(rng, cfgs, n, length, moves):
-    """G4: long random local-sink histories (inputs only)."""
+def inside(c, p):
+    return len(p) > len(c["src"]) and tuple(p[:len(c["src"])]) == tuple(c["src"])
+
+
+def random_histories(rng, cfgs, n, length):
+    """G4: long random local-sink histories (inputs only). Mostly sensible: files are created
+    before they are updated / deleted / moved, so that the sink holds the old key."""
     out = []
     for _ in range(n):
         c = rng.choice(cfgs)
         ops = []
+        have = set()
         for _ in range(length):
-            isdir = rng.random() < 0.15
+            isdir = rng.random() < 0.12
             ps = DIRS if isdir else FILES
-            kinds = [k for k in ALLK if k != "rename" or (moves and c["mode"] != "replicate")]
+            kinds = [k for k in ALLK if k != "rename" or c["mode"] != "replicate"]
             k = rng.choice(kinds)
-            p = list(rng.choice(ps))
-            q = list(rng.choice([x for x in ps if list(x) != p]))
+            p = rng.choice(ps)
+            if not isdir and rng.random() < 0.8:
+                if k == "create":
+                    free = [x for x in FILES if x not in have]
+                    p = rng.choice(free) if free else p
+                elif have:
+                    p = rng.choice(sorted(have))
+                else:
+                    k = "create"
+            q = rng.choice([x for x in ps if x != p])
+            if not isdir:
+                if k == "delete":
+                    have.discard(p)
+                elif k == "rename":
+                    have.discard(p)
+                    have.add(q)
+                else:
+                    have.add(p)
             e = {"ev": "apply", "kind": k, "isdir": isdir, "origin": "local", "found": True,
-                 "old": [] if k == "create" else p,
-                 "new": [] if k == "delete" else (q if k == "rename" else p),
+                 "old": [] if k == "create" else list(p),
+                 "new": [] if k == "delete" else (list(q) if k == "rename" else list(p)),
                  "oc": "" if isdir or k == "create" else "c1",
                  "nc": "" if isdir or k == "delete" else rng.choice(["c1", "c2"])}
             ops.append(e)
@@ -88,41 +110,71 @@ def reset_line(c):
     return r
 
 
+MODES = (("replicate", "rec", "filer"), ("syncfn", "rec", "rec"), ("sync", "rec", "filer"), ("syncfn", "local", "local"))
+
+
+def model_check(ctx, th, allp):
+    """design level: sensible histories of the modelled source tree, replicated by the reference
+    applier into an abstract sink: mirror invariant, reference applier admitted by the judgement"""
+    quick_cfgs = [cfg(m, s, n, SRCS[0], DSTS[0], False) for (m, s, n) in MODES] + [cfg("syncfn", "local", "local", SRCS[1], DSTS[1], True)]
+    if th:
+        wide = [cfg(m, s, n, src, dst, incr) for (m, s, n) in MODES for src in SRCS[::2] for dst in DSTS[::2]
+                for incr in (False, True)]
+        mc = ctx.instance("MC_ReplMap_wide", "ReplMap", "ReplMap_mc.cfg", consts(wide, allp, DIRS, ALLK, True, 3))
+        ctx.model_check(mc, workers=4, timeout=1500, label="sensible histories of length 3, 32 configurations: mirror invariant, reference applier admitted")
+    mc = ctx.instance("MC_ReplMap", "ReplMap", "ReplMap_mc.cfg", consts(quick_cfgs, allp, DIRS, ALLK, True, 4 if th else 3))
+    ctx.model_check(mc, workers=4, timeout=1500, label="sensible histories: mirror invariant, reference applier admitted")
+
+
+def pack(hists, size=24):
+    """single-event histories into a stateless sink (recording sink, stand-in target filer) are
+    packed into executions of <= size events per configuration"""
+    out, groups = [], {}
+    for h in hists:
+        c = h["cfg"]
+        if c["sink"] == "local":
+            out.append(h)
+            continue
+        groups.setdefault(json.dumps(c, sort_keys=True), []).extend(h["ops"])
+    for k in sorted(groups):
+        ops = groups[k]
+        for i in range(0, len(ops), size):
+            out.append({"cfg": json.loads(k), "ops": ops[i:i + size]})
+    return out
+
+
+def generate(ctx, th, allp):
+    """G1 (one TLC run, which also checks the design invariants on every generated step):
+    - every single event x every configuration into the recording sink (Replicate, sync fn);
+    - every single event the filer publishes x origin (source / target / third cluster) through one
+      direction of filer.sync end to end (real FilerSink between two stand-in filers);
+    - every history of 2 events into the real local sink directory."""
+    sync_cfgs = [cfg("sync", "rec", "filer", src, dst, False) for src in SRCS for dst in (DSTS[0], DSTS[2])]
+    lc = local_cfgs(SRCS[:2]) if th else [c for c in local_cfgs(SRCS[:1]) if c["mode"] == "replicate" or not c["incr"]]
+    g = ctx.instance("G1_ReplMap", "ReplMap", open(os.path.join(vf.SPEC, "ReplMap_mc.cfg")).read().replace("VIEW MCView\n", "") + "INVARIANT Emit\n",
+                     consts(rec_cfgs("replicate") + rec_cfgs("syncfn") + sync_cfgs + lc, allp, DIRS, ALLK, False, 2))
+    hists = pack(ctx.generate(g, workers=4, timeout=1500))
+    if th:
+        # every history of 3 file events over the three paths around the boundary
+        g = ctx.instance("G1_local3", "ReplMap", G1CFG,
+                         consts([c for c in local_cfgs(SRCS[:1]) if not c["incr"]], FILES[:3] + DIRS[:1], DIRS[:1], ALLK, False, 3))
+        hists += ctx.generate(g, workers=4, timeout=1500)
+        # G3: TLC-simulated sensible histories (files exist when updated / deleted / moved)
+        g = ctx.instance("G3_local", "ReplMap", G1CFG, consts(local_cfgs(SRCS), allp, DIRS, ALLK, True, 5))
+        hists += ctx.generate(g, simulate=1000, depth=6, limit=1500)
+    rng = random.Random(ctx.seed)
+    hists += random_histories(rng, local_cfgs(SRCS), 1500 if th else 300, 8)
+    return hists
+
+
 def run(ctx):
     ctx.sany("ReplMap", "ReplMapTrace")
     th = ctx.thorough
     allp = FILES + DIRS
-
-    # 1. design level: the reference applier against the judgement, the mirror invariant
-    modes = (("replicate", "rec", "filer"), ("syncfn", "rec", "rec"), ("sync", "rec", "filer"), ("syncfn", "local", "local"))
-    mc_cfgs = [cfg(m, s, n, src, dst, incr) for (m, s, n) in modes
-               for src in (SRCS if th else SRCS[:1]) for dst in (DSTS if th else DSTS[:1]) for incr in (False, True)]
-    mc = ctx.instance("MC_ReplMap", "ReplMap", "ReplMap_mc.cfg", consts(mc_cfgs, allp, DIRS, ALLK, True, 4 if th else 3))
-    ctx.model_check(mc, workers=4, label="sensible histories: mirror invariant, reference applier admitted")
-    mc2_cfgs = [cfg(m, s, n, src, dst, incr) for (m, s, n) in modes for src in SRCS for dst in DSTS for incr in (False, True)]
-    mc2 = ctx.instance("MC2_ReplMap", "ReplMap", "ReplMap_mc.cfg", consts(mc2_cfgs, FILES, [], ALLK, False, 2 if th else 1))
-    ctx.model_check(mc2, workers=4, label="every event, every configuration: reference applier admitted, safety")
-
-    # 2. generators
     hists = []
-    # G1: every single event x every configuration, recording sink
-    g = ctx.instance("G1_rec", "ReplMap", G1CFG,
-                     consts(rec_cfgs("replicate") + rec_cfgs("syncfn"), FILES, [], ALLK, False, 1))
-    hists += ctx.generate(g, workers=2)
-    # G1: all short histories into the real local sink directory
-    depth = 3 if th else 2
-    g = ctx.instance("G1_local", "ReplMap", G1CFG,
-                     consts(local_cfgs(SRCS[:2] if th else SRCS[:1]), allp, DIRS, ALLK, False, 2))
-    hists += ctx.generate(g, workers=4, timeout=1500)
-    if th:
-        g = ctx.instance("G1_local3", "ReplMap", G1CFG,
-                         consts([c for c in local_cfgs(SRCS[:1]) if not c["incr"]], FILES, [], ALLK, False, 3))
-        hists += ctx.generate(g, workers=4, timeout=1500)
-    # G3: random sensible histories (files exist when updated / deleted / moved)
-    g = ctx.instance("G3_local", "ReplMap", G1CFG, consts(local_cfgs(SRCS), allp, DIRS, ALLK, True, 5))
-    hists += ctx.generate(g, simulate=3000 if th else 300, depth=6)
-    rng = random.Random(ctx.seed)
-    hists += random_histories(rng, local_cfgs(SRCS), 3000 if th else 300, 8, True)
+    if not ctx.replay:      # a replay only re-executes and re-judges the saved script
+        model_check(ctx, th, allp)
+        hists = generate(ctx, th, allp)
 
     script = os.path.join(ctx.out, "script.ndjson")
     if ctx.replay:
@@ -134,11 +186,14 @@ def run(ctx):
                 for op in h["ops"]:
                     f.write(json.dumps(op) + "\n")
     binp = ctx.build("c36")
-    trace = ctx.drive(binp, ["--script", script], env={"TZ": "UTC"})
+    env = {"TZ": "UTC"}
+    if os.path.isdir("/dev/shm"):
+        env["TMPDIR"] = "/dev/shm"      # the local sink directories
+    trace = ctx.drive(binp, ["--script", script], env=env)
 
     def mutate(evs):
         for i, e in enumerate(evs):
-            if e["ev"] == "apply" and e["calls"] and evs[0]["sink"] == "rec":
+            if e["ev"] == "apply" and e["calls"] and evs[0]["sink"] == "rec" and not evs[0]["incr"]:
                 m = [dict(x) for x in evs]
                 m[i]["calls"] = [dict(c) for c in e["calls"]]
                 m[i]["calls"][0]["key"] = e["calls"][0]["key"] + "2"
@@ -147,7 +202,8 @@ def run(ctx):
 
     ctx.judge("ReplMapTrace", trace, "trace_base.cfg",
               consts([], [], [], [], False, 0),
-              nontrivial=lambda e: any('"calls":[{' in x.replace(" ", "") for x in e), mutate=mutate)
+              nontrivial=lambda e: any('"calls":[{' in x.replace(" ", "") for x in e), mutate=mutate,
+              chunk_events=2500)
     ctx.rule = ("executions = TLC-enumerated: every single event (create, update, delete, rename within / into / out of / "
                 "outside; file and directory; UpdateEntry finds / does not find the old key) over 5 paths with adversarial "
                 "siblings x 3 source dirs x 3 target dirs x incremental or not, through Replicator.Replicate and "
